@@ -46,6 +46,7 @@ static EXCLUDED: AtomicU64 = AtomicU64::new(0);
 static NEGATIVE: AtomicU64 = AtomicU64::new(0);
 static DOC_DEVIATION: AtomicU64 = AtomicU64::new(0);
 static GIT_CALLS: AtomicU64 = AtomicU64::new(0);
+static BELOW_EXCLUDED: AtomicU64 = AtomicU64::new(0);
 
 pub fn write(path: &Path, data: &[u8]) {
     if let Some(p) = path.parent() {
@@ -190,6 +191,7 @@ fn eval(c: &IgnCase) -> Verdict {
         s
     };
     let (mut excluded, mut negative, mut deviations) = (0u64, 0u64, 0u64);
+    let mut known_shape: Option<String> = None;
     for (order, gix) in [("sorted", &gix_sorted), ("reverse", &gix_rev)] {
         for (i, (p, d)) in queries.iter().enumerate() {
             let (g, x) = (&git[i], &gix[i]);
@@ -215,18 +217,49 @@ fn eval(c: &IgnCase) -> Verdict {
                 Some(false) => "file",
                 None => "non-existing path",
             };
-            return bad(
-                if g_ex != x_ex { "decision" } else { "pattern" },
-                format!(
-                    "{kind} {p:?} ({order} traversal) with {}: git check-ignore says {} ({}), gitoxide says {} ({})",
-                    cfg(),
-                    if g_ex { "ignored" } else { "not ignored" },
-                    describe(g),
-                    if x_ex { "ignored" } else { "not ignored" },
-                    describe(x)
-                ),
+            // Open known finding (by design of gix-dir's precious-file handling): gitoxide lets the *innermost* matched parent
+            // directory (or, below a re-included one, the path itself) decide, git the *outermost excluded* one. The shape is
+            // recognised structurally: git reports an ancestor directory E as excluded, gitoxide agrees about E itself, git's
+            // answer for the path is E's answer, and gitoxide's answer differs (it can only come from below E).
+            let mut ancestors: Vec<usize> = queries
+                .iter()
+                .enumerate()
+                .filter(|(_, (q, qd))| *qd == Some(true) && p.len() > q.len() && p.starts_with(q) && p.as_bytes()[q.len()] == b'/')
+                .map(|(j, _)| j)
+                .collect();
+            ancestors.sort_by_key(|j| queries[*j].0.len());
+            let outermost_excluded = ancestors.iter().copied().find(|j| git[*j].as_ref().map_or(false, |h| !h.negative));
+            let below_excluded_parent = outermost_excluded.map_or(false, |e| gix[e] == git[e] && *g == git[e]);
+            let class = if below_excluded_parent {
+                if x_ex {
+                    "deeper-match-below-excluded-parent"
+                } else {
+                    "reincluded-below-excluded-parent"
+                }
+            } else if g_ex != x_ex {
+                "decision"
+            } else {
+                "pattern"
+            };
+            let message = format!(
+                "{class}: {kind} {p:?} ({order} traversal) with {}: git check-ignore says {} ({}), gitoxide says {} ({})",
+                cfg(),
+                if g_ex { "ignored" } else { "not ignored" },
+                describe(g),
+                if x_ex { "ignored" } else { "not ignored" },
+                describe(x)
             );
+            if below_excluded_parent {
+                // keep looking: any other kind of disagreement in this configuration must not be hidden by the known shape
+                known_shape.get_or_insert(message);
+                BELOW_EXCLUDED.fetch_add(1, Ordering::Relaxed);
+                continue;
+            }
+            return Err(message);
         }
+    }
+    if let Some(message) = known_shape {
+        return Err(message);
     }
     for g in &git {
         match g {
@@ -271,6 +304,12 @@ pub fn run(run: &'static Run) {
         "accepted documented deviation: when git reports no match and gitoxide reports a *negative* pattern that is the match of an ancestor directory \
          (gix-worktree's own baseline test tolerates exactly this); the ignored/not-ignored decision is identical there",
     );
+    run.assume(
+        "open known findings `reincluded-below-excluded-parent` / `deeper-match-below-excluded-parent`: gitoxide lets the innermost matched parent directory (or the path itself \
+         below a re-included one) decide, git the outermost excluded one (.gitignore `a`,`!b`, path a/b/b: git ignored by line 1, gitoxide not ignored). gix-dir relies on this \
+         to find precious/re-included files inside ignored directories; a repair was reverted (9f28a8ff9). Recognised structurally (git reports an ancestor directory as excluded, \
+         gitoxide agrees about that directory, git's answer for the path is that directory's answer); every other disagreement in the same configuration is still reported first",
+    );
     run.assume("pattern text is compared by (source, line, negated) — gitoxide's Display of `\\!a` drops the backslash, which is not part of the property");
     run.budget_secs(run.pick(300.0, 2400.0)); // ~2 s / ~15 s of work on an idle 16-core box (one git process per configuration); large headroom because the box is shared
 
@@ -295,6 +334,7 @@ pub fn run(run: &'static Run) {
         run.cov("git_reported_negative", NEGATIVE.load(Ordering::Relaxed));
         run.cov("documented_deviation_ancestor_negative", DOC_DEVIATION.load(Ordering::Relaxed));
         run.cov("oracle_calls_git", GIT_CALLS.load(Ordering::Relaxed));
+        run.cov("answers_below_excluded_parent_differing", BELOW_EXCLUDED.load(Ordering::Relaxed));
         run.require("some paths were excluded", EXCLUDED.load(Ordering::Relaxed) > 100);
         run.require("some negative patterns were reported", NEGATIVE.load(Ordering::Relaxed) > 10);
     }
